@@ -18,6 +18,7 @@ import (
 type PoolSc struct {
 	Workers   int      `json:"workers"`
 	Decisions []string `json:"decisions"`
+	Procs     int      `json:"procs,omitempty"` // > 0: run with GOMAXPROCS(Procs); the pool must not depend on it
 }
 
 type PoolPoint struct {
@@ -82,6 +83,9 @@ func execPool(sc *PoolSc, choose poolChooser) (PoolObs, []string) {
 	}
 	out := make(chan result, 1)
 	go func() { // a fresh goroutine per scenario: its id scopes the quiescence detection
+		if sc.Procs > 0 {
+			defer runtime.GOMAXPROCS(runtime.GOMAXPROCS(sc.Procs))
+		}
 		owner := goid()
 		buf := make([]byte, 1<<20)
 		g := &poolCtl{parked: map[int]chan struct{}{}}
@@ -323,7 +327,11 @@ func genPool(r *rng, thorough bool, shard, shards int, jl *jobList) {
 				}
 				return choose
 			}
-			jl.addPool(PoolSc{Workers: ww}, mk)
+			psc := PoolSc{Workers: ww}
+			if rep%3 == 2 {
+				psc.Procs = 1 + rr.intn(2)
+			}
+			jl.addPool(psc, mk)
 		}
 	}
 }
